@@ -10,7 +10,7 @@ import (
 	"verifharness/internal/val"
 )
 
-var c03Forced = []string{"group.1col", "group.2col", "group.3col", "group.nullkey", "having", "having.key", "where", "star", "agg.COUNT*", "agg.COUNT", "agg.SUM", "agg.MIN", "agg.MAX", "agg.AVG",
+var c03Forced = []string{"group.1col", "group.2col", "group.3col", "group.nullkey", "group.mixedkey", "having", "having.key", "where", "star", "agg.COUNT*", "agg.COUNT", "agg.SUM", "agg.MIN", "agg.MAX", "agg.AVG",
 	"agg.samefn-diffcol", "agg.samefn-samecol", "agg.nullable", "whole.where", "whole.nowhere", "whole.empty", "table.empty"}
 
 func init() {
@@ -72,6 +72,12 @@ func c03Table(c *fw.Case, forceEmpty bool) *gen.Table {
 		case 1:
 		default:
 			row["g4"] = gen.Pick(c.R, gs)
+		}
+		// a grouping column whose values look alike as text but differ in type
+		switch c.Intn(8) {
+		case 0:
+		default:
+			row["g5"] = gen.Pick(c.R, []any{1.0, "1", true, "true", nil, "<nil>", "a", 1.5, "1.5"})
 		}
 		row["v1"] = gen.Pick(c.R, vpool)
 		row["v2"] = dyadic(c)
@@ -135,11 +141,17 @@ func c03Group(c *fw.Case) {
 		case "group.3col":
 			ng = 3
 		}
-		all := []string{"g1", "g2", "g3", "g4"}
+		all := []string{"g1", "g2", "g3", "g4", "g5"}
 		c.R.Shuffle(len(all), func(i, j int) { all[i], all[j] = all[j], all[i] })
 		gcols = all[:ng]
 		if force == "group.nullkey" && !containsStr(gcols, "g4") {
 			gcols[0] = "g4"
+		}
+		if force == "group.mixedkey" && !containsStr(gcols, "g5") {
+			gcols[0] = "g5"
+		}
+		if containsStr(gcols, "g5") {
+			feats = append(feats, "group.mixedkey")
 		}
 		feats = append(feats, fmt.Sprintf("group.%dcol", ng))
 		if containsStr(gcols, "g4") {
@@ -212,7 +224,7 @@ func c03Group(c *fw.Case) {
 			useKey := force == "having.key" || c.Chance(0.25)
 			if useKey {
 				for _, g := range gcols {
-					if g == "g4" {
+					if g == "g4" || g == "g5" {
 						continue
 					}
 					feats = append(feats, "having.key")
